@@ -15,7 +15,7 @@ import concurrent.futures as cf
 from common import (SPEC, VH, CLI, Report, ToolError, build_harness, build_cli, run_tlc, seed, tier, workdir)
 from pure_engine import parse_emitted
 
-NL = 44  # catalogue length of MCPp.tla (checked against the emitted cases)
+NL = 45  # catalogue length of MCPp.tla (checked against the emitted cases)
 # the catalogue of MCPp.tla (kept in step with it: check_c01 compares it with the emitted cases)
 MCPP_CATALOGUE = [
     "x", "", "  y", "x A y B", "AB", " \t",
@@ -26,7 +26,7 @@ MCPP_CATALOGUE = [
     "TXTPP#tag A", "TXTPP#tag B", "TXTPP#tag AB",
     "-TXTPP#write q", "-TXTPP#write", "-", "-A", " r", "-TXTPP#run", "-TXTPP#temp bad.txtpp",
     "// TXTPP#temp t1", "// c", "//", "   d", "-TXTPP#", "TXTPP#runx", "-TXTPP#write  TXTPP#tag A", "TXTPP#include p4",
-    "// TXTPP#temp sub/t2", "TXTPP#include t1", "  TXTPP#tag A", "\t-TXTPP#write  q r "]
+    "// TXTPP#temp sub/t2", "TXTPP#include t1", "  TXTPP#tag A", "\t-TXTPP#write  q r ", "-TXTPP#temp p2"]
 
 PP_CFG = """SPECIFICATION Spec
 CONSTANTS
@@ -48,9 +48,72 @@ ENV_FILES = [
 ENV_NAMES = {f["path"][2:] for f in ENV_FILES}
 
 
-def tlc_cases(wd, maxlen, firsts, name="pp"):
-    """firsts: first-line indices (0 = the empty source); an entry may be a pair (first, maxlen) to override the bound"""
+def structured_sources(rng, limit):
+    """families of sources longer than the exhaustive bound, built around the stateful mechanisms: a tag, then directives
+    without output, then a directive with output, then a line that uses the tag (and the same with the order disturbed);
+    temp files that are read back; directive chains. Returned as lists of catalogue indices (1-based)."""
+    ix = {l: i + 1 for i, l in enumerate(MCPP_CATALOGUE)}
+    tags = ["TXTPP#tag A", "TXTPP#tag B", "TXTPP#tag AB", "  TXTPP#tag A"]
+    quiet = [["-TXTPP#after d1"], ["// TXTPP#temp t1", "// c"], ["-TXTPP#"], ["// TXTPP#temp t1"], ["-TXTPP#", "-A"], ["// TXTPP#temp sub/t2", "//"]]
+    loud = [["TXTPP#include p1"], ["TXTPP#include p2"], ["TXTPP#include p4"], ["TXTPP#include pc"], ["-TXTPP#run echo a"], ["-TXTPP#run sh pa"],
+            ["  -TXTPP#run sh ab"], ["-TXTPP#write q"], ["-TXTPP#write", "-"], ["TXTPP#include d1"], ["-TXTPP#run true"], ["\t-TXTPP#write  q r "],
+            ["TXTPP#include e0"], ["-TXTPP#write"]]
+    uses = [["-A"], ["x A y B"], ["AB"], ["x"], ["x A y B", "-A"], ["AB", "x A y B"]]
+    out = []
+    for t in tags:
+        for q in [[]] + quiet:
+            for q2 in [[]] + quiet[:3]:
+                for lo in loud:
+                    for u in uses:
+                        out.append([t] + q + q2 + lo + u)
+                        if rng.random() < 0.15:
+                            out.append([t] + q + lo + q2 + u + ["x"])      # use after more directives
+                        if rng.random() < 0.1:
+                            out.append(q + [t] + lo + u + lo)              # quiet directive before the tag
+    for t1, t2 in (("TXTPP#tag A", "TXTPP#tag B"), ("TXTPP#tag B", "TXTPP#tag A")):
+        for l1 in loud[:6]:
+            for l2 in loud[:6]:
+                out.append([t1] + l1 + [t2] + l2 + ["x A y B"])
+                out.append([t1] + l1 + [t2] + l2 + ["-A", "x A y B"])
+    for body in (["// c"], ["//"], ["// c", "//"], []):
+        for reader in (["TXTPP#include t1"], ["-TXTPP#run cat t1"], ["TXTPP#include t1", "-TXTPP#run cat t1"]):
+            for tail in ([], ["x"], ["TXTPP#include p2", "x"]):
+                out.append(["// TXTPP#temp t1"] + body + reader + tail)
+                out.append(["x", "// TXTPP#temp t1"] + body + ["-TXTPP#"] + reader + tail)
+    for a in loud:
+        for b in loud:
+            for c in (["x"], [""], []):
+                out.append(["x"] + a + b + c)
+    res = [[ix[l] for l in src] for src in out]
+    uniq = []
+    seen = set()
+    for r in res:
+        if tuple(r) not in seen and len(r) > 3:
+            seen.add(tuple(r))
+            uniq.append(r)
+    if len(uniq) > limit:
+        uniq = rng.sample(uniq, limit)
+    return uniq
+
+
+def tlc_cases(wd, maxlen, firsts, name="pp", extra=None):
+    """firsts: first-line indices (0 = the empty source); an entry may be a pair (first, maxlen) to override the bound;
+    extra: explicitly listed sources (lists of catalogue indices), evaluated by TLC like the enumerated ones"""
+    extra_jobs = []
+    if extra:
+        per = max(1, (len(extra) + 11) // 12)
+        for j in range(0, len(extra), per):
+            fn = os.path.join(wd, f"{name}-extra-{j}.ndjson")
+            with open(fn, "w") as f:
+                for src in extra[j:j + per]:
+                    f.write(json.dumps(src) + "\n")
+            extra_jobs.append(fn)
+
     def one(first):
+        if isinstance(first, str):
+            cfg = os.path.join(wd, os.path.basename(first) + ".cfg")
+            open(cfg, "w").write(PP_CFG.format(maxlen=1, first=999))
+            return run_tlc("MCPp.tla", cfg, os.path.basename(first), workers=1, timeout=6 * 3600, java_opts="-Xss512m -Xmx3g", env_extra={"PP_EXTRA": first})
         ml = maxlen
         if isinstance(first, tuple):
             first, ml = first
@@ -58,7 +121,7 @@ def tlc_cases(wd, maxlen, firsts, name="pp"):
         open(cfg, "w").write(PP_CFG.format(maxlen=ml, first=first))
         return run_tlc("MCPp.tla", cfg, f"{name}-{first}-{ml}", workers=1, timeout=6 * 3600, java_opts="-Xss512m -Xmx3g")
     with cf.ThreadPoolExecutor(max_workers=14) as ex:
-        rs = list(ex.map(one, firsts))
+        rs = list(ex.map(one, list(firsts) + extra_jobs))
     return rs
 
 
@@ -182,8 +245,8 @@ def scan_le(data, le):
     return True
 
 
-def spec_run(rep, prop, wd, maxlen, firsts):
-    rs = tlc_cases(wd, maxlen, firsts)
+def spec_run(rep, prop, wd, maxlen, firsts, extra=None):
+    rs = tlc_cases(wd, maxlen, firsts, extra=extra)
     states = 0
     cases = []
     for r in rs:
@@ -220,6 +283,8 @@ def random_sources(rng, n, catalogue, lo=4, hi=9):
 def validate_obs(rep, wd, recs, name, key_of):
     """I->S: observations validated by TLC against PpCore.tla (PpObs.tla)"""
     chunks = [recs[i:i + 400] for i in range(0, len(recs), 400)]
+    cfg = os.path.join(wd, f"{name}.cfg")
+    open(cfg, "w").write(PPOBS_CFG)          # written once, before the validators run in parallel
 
     def val(ic):
         i, chunk = ic
@@ -227,8 +292,6 @@ def validate_obs(rep, wd, recs, name, key_of):
         with open(tf, "w") as f:
             for e in chunk:
                 f.write(json.dumps(e) + "\n")
-        cfg = os.path.join(wd, f"{name}.cfg")
-        open(cfg, "w").write(PPOBS_CFG)
         r = run_tlc("PpObs.tla", cfg, f"{name}-{i}", workers=1, timeout=3600, env_extra={"TRACE": tf},
                     java_opts="-Xss1g -Xmx3g -Dtlc2.tool.queue.IStateQueue=StateDeque", check=False)
         return chunk, r
@@ -291,14 +354,15 @@ def step_traces(rep, wd, cases, rng, n, key_prefix="pptrace"):
     if cur:
         chunks.append(cur)
 
+    cfg = os.path.join(wd, f"{key_prefix}.cfg")
+    open(cfg, "w").write(PPOBS_CFG)
+
     def val(ic):
         i, chunk = ic
         tf = os.path.join(wd, f"{key_prefix}-{i}.ndjson")
         with open(tf, "w") as f:
             for e in chunk:
                 f.write(json.dumps({k: v for k, v in e.items() if k != "src"}) + "\n")
-        cfg = os.path.join(wd, f"{key_prefix}.cfg")
-        open(cfg, "w").write(PPOBS_CFG)
         return chunk, run_tlc("PpTrace.tla", cfg, f"{key_prefix}-{i}", workers=1, timeout=3600, env_extra={"TRACE": tf},
                               java_opts="-Xss1g -Xmx3g -Dtlc2.tool.queue.IStateQueue=StateDeque", check=False)
     with cf.ThreadPoolExecutor(max_workers=12) as ex:
@@ -374,7 +438,7 @@ def check_c01():
     if not quick:
         # every source of <= 3 lines, plus every source of 4 lines that starts with one of four seeded catalogue lines
         firsts += [(f, 4) for f in sorted(rng.sample(range(1, NL + 1), 4))]
-    states, cases = spec_run(rep, "C01", wd, maxlen, firsts)
+    states, cases = spec_run(rep, "C01", wd, maxlen, firsts, extra=structured_sources(rng, 3000 if quick else 100000))
     seen_src = set()
     uniq = []
     for c in cases:
@@ -523,11 +587,17 @@ def line_ending_table(rep, wd, quick):
     if not r["ok"]:
         rep.violation("spec:LineEnding", "TLC: the code-shaped first-line rule differs from the documented one (LineEnding.tla)", dict(out=r["out"][-3000:]))
     rows = parse_emitted(r["out"], "LE")
+    # first lines of sizes around I/O buffer boundaries (the rule is about the first line, however long it is)
+    for n in (100, 4095, 4096, 8189, 8190, 8191, 8192, 8193, 16383, 16384, 16385, 70000):
+        for term, want in (("\n", "\n"), ("\r\n", "\r\n"), ("", "\n")):
+            for rest in ("", "x\r\ny\n", "x\ny\r\n"):
+                rows.append(dict(file="a" * n + term + (rest if term else ""), le=want))
     got = vh_pure([dict(op="le", bytes=x["file"]) for x in rows], wd, "le")
     for x, g in zip(rows, got):
         if g.get("le") != x["le"]:
-            rep.violation(f"le:first:{x['file']!r}", f"line ending derived from a source with bytes {x['file']!r}: {g.get('le')!r} (panic={g.get('panic')}), LineEnding.tla says {x['le']!r}",
-                          dict(file=x["file"], expected=x["le"], observed=g))
+            shown = x["file"] if len(x["file"]) < 60 else f"<{len(x['file'].split(chr(10))[0].rstrip(chr(13)))} x 'a'>" + x["file"][-12:]
+            rep.violation(f"le:first:{shown!r}", f"line ending derived from a source with bytes {shown!r}: {g.get('le')!r} (panic={g.get('panic')}), the first-line rule (LineEnding.tla) says {x['le']!r}",
+                          dict(file=shown, expected=x["le"], observed=g))
     return len(rows)
 
 
